@@ -174,7 +174,10 @@ theorem appendBatch_refinesNC (es : List (LogId × Bytes)) :
         ih s1 r1 r' _ seg1 (effs ++ e1) href1 hfs1 hc
           (fun e he => hsm e (List.mem_cons_of_mem _ he))
       refine ⟨seg2, s2, e1 ++ e2, ?_, href2, hg1.trans hg2⟩
-      unfold Store.appendBatch
+      have hidx : id.index + 1 ≠ U64 := by
+        have : id.index + 1 < U64 := hsm (id, p) List.mem_cons_self
+        omega
+      rw [appendBatch_cons_small_D12 _ _ _ _ _ _ _ hidx]
       rw [heq1]
       simp only
       rw [heq2, List.append_assoc]
@@ -298,7 +301,10 @@ theorem call_refinesNC {s : Store} {r r' : RefLog} (fsHas : Nat → Bool) {op : 
       exact truncateAfter_refinesNC fsHas h hfs (Or.inr ⟨e, (RefLog.entryAt_some he).1, rfl⟩)
         (by rw [← hde]; exact hds)
   | purge upto =>
-    simp only [Store.call]
+    have hidx : upto.index + 1 ≠ U64 := by
+      have : upto.index + 1 < U64 := hsm
+      omega
+    simp only [Store.call, if_neg hidx]
     rw [nextIndexChecked_eq h.pf.purged]
     simp only [hpu]
     simp only [RefLog.call] at hc
